@@ -45,10 +45,49 @@ class Recorder(jsl.DispatcherObserver):
     def update(self, scheduled_operation):
         self.log.append(f"U {fmt_sop(scheduled_operation)} {fmt_snapshot(self.dispatcher)}")
         self.trace.append(f"{self.rid}:U{scheduled_operation.operation.operation_id}")
+        self._inside_check(f"update({scheduled_operation.operation.operation_id})")
 
     def reset(self):
         self.log.append(f"R {fmt_snapshot(self.dispatcher)}")
         self.trace.append(f"{self.rid}:R")
+        self._inside_check("reset()")
+
+    def _inside_check(self, where):
+        """Recorders with tag 2 ask the dispatcher's queries from INSIDE the callback and compare each answer with what the
+        schedule they are shown implies (oracles.View: nothing of the dispatcher's tracking vectors or memos); discrepancies
+        are left in `world.inside_bad` for the oracle of the check."""
+        world = getattr(self, "world", None)
+        if world is None or self.tag != 2:
+            return
+        try:
+            self._inside_check_body(world, where)
+        except Exception as e:  # pylint: disable=broad-except
+            world.inside_bad.append(f"inside {where}: a dispatcher query raised {e!r}")
+
+    def _inside_check_body(self, world, where):
+        import oracles
+        d = self.dispatcher
+        v = oracles.View(d.instance, d.schedule.schedule)
+        bad = world.inside_bad
+        ft = world.filter_tokens
+
+        def cmp(name, got, want):
+            if got != want:
+                bad.append(f"inside {where}: {name} = {got}, the schedule shown implies {want}")
+        for op in v.unscheduled():
+            cmp(f"earliest_start_time(op {op.operation_id})", d.earliest_start_time(op), v.earliest_start(op))
+            for m in op.machines:
+                cmp(f"start_time(op {op.operation_id}, machine {m})", d.start_time(op, m), v.start(op, m))
+            cmp(f"is_operation_ready(op {op.operation_id})", bool(d.is_operation_ready(op)),
+                v.next_pos[op.job_id] == op.position_in_job)
+        ids = lambda ops: [o.operation_id for o in ops]  # noqa: E731
+        cmp("raw_ready_operations()", ids(d.raw_ready_operations()), ids(v.raw_ready()))
+        cmp("unscheduled_operations()", ids(d.unscheduled_operations()), ids(v.unscheduled()))
+        cmp("scheduled_operations()", sorted(o.operation_id for o in d.scheduled_operations()), sorted(v.sop))
+        cmp("available_operations()", ids(d.available_operations()), ids(v.available(ft)))
+        cmp("current_time()", d.current_time(), v.now(ft))
+        cmp("ongoing_operations()", sorted(x.operation.operation_id for x in d.ongoing_operations()),
+            sorted(x.operation.operation_id for x in v.ongoing(ft)))
 
 
 KINDS = {
@@ -71,6 +110,7 @@ class ImplWorld(ImplExt):
         self.heap = []      # observers by id
         self.kinds = []
         self.trace = []
+        self.inside_bad = []
 
     def _register(self, obs, kind, subscribed=True):
         self.heap.append(obs)
@@ -85,6 +125,7 @@ class ImplWorld(ImplExt):
         if isinstance(obs, Recorder):
             obs.rid = len(self.heap) - 1
             obs.trace = self.trace
+            obs.world = self
         return len(self.heap) - 1
 
     def _cls(self, kind):
@@ -1154,6 +1195,18 @@ class ImplEnv(ImplViz):
         except Exception:  # pylint: disable=broad-except
             return "raise"
         return f"{fmt_instance(self.menv.instance)} || {fmt_obs(self.last_obs)}"
+
+    def cmd_mswap(self, ts):
+        """the multi-instance environment's reward function replaced by one built the ordinary way"""
+        cls = {"makespan_reward": MakespanReward, "idle_reward": IdleTimeReward}.get(ts[0])
+        if cls is None:
+            return "bad-op"
+        try:
+            obs = cls(self.menv.dispatcher)
+        except Exception:  # pylint: disable=broad-except
+            return "raise"
+        self.menv.reward_function = obs
+        return "ok"
 
     def cmd_mstep(self, ts):
         try:
